@@ -1,0 +1,40 @@
+//! Verification-only hooks. Compiled only with the cargo feature `verif`.
+//!
+//! H1: lets a harness decide the iteration order of the dependency map inside
+//! `eval_dependencies` (the only place where `HashMap` order can influence an
+//! algorithm), so that *every* order can be enumerated instead of relying on
+//! the per-process random hasher.
+
+use std::cell::RefCell;
+
+thread_local! {
+    static DEPENDENCY_ORDER: RefCell<Option<Vec<usize>>> = const { RefCell::new(None) };
+}
+
+/// Set (or clear) the permutation applied to the key-sorted dependency list on this thread.
+pub fn set_dependency_order(order: Option<Vec<usize>>) {
+    DEPENDENCY_ORDER.with(|o| *o.borrow_mut() = order);
+}
+
+pub(crate) fn permute_bucket<T>(bucket: &mut Vec<(&u64, T)>) {
+    DEPENDENCY_ORDER.with(|o| {
+        let o = o.borrow();
+        let Some(order) = o.as_ref() else { return };
+        if order.len() != bucket.len() {
+            return;
+        }
+        bucket.sort_by_key(|(id, _)| **id);
+        let mut slots: Vec<Option<(&u64, T)>> = bucket.drain(..).map(Some).collect();
+        for &i in order {
+            if let Some(x) = slots.get_mut(i).and_then(|s| s.take()) {
+                bucket.push(x);
+            }
+        }
+        // A malformed permutation (repeats / out of range) keeps the leftovers in key order.
+        for s in slots.iter_mut() {
+            if let Some(x) = s.take() {
+                bucket.push(x);
+            }
+        }
+    });
+}
